@@ -11,7 +11,7 @@ from mc.core import Fail, Outcome, Sub, run_subs
 PROPERTY = "C16"
 ASSUMPTIONS = [
     "label domain: species labels start with a letter and contain no blank, '+', '>' or '|' (the text format is ambiguous otherwise); species labels and reaction ids are disjoint",
-    "flag combinations that claim invertibility: bipartite export with include_stoich, include_edge_id_attr, include_mol; strings with include_rule_suffix",
+    "flag combinations that claim invertibility: bipartite export with include_stoich, include_edge_id_attr, include_mol, every marker pair (0,1) / (1,0) / (True,False) / ('sp','rx') / (2,3); strings with include_rule_suffix",
     "molecule labels include falsy identifiers (0, '') since assign_mol documents ints and strings as legitimate",
     "a registered species that occurs in no reaction: the statement promises the reactions, ids, rules, coefficients and molecule labels, not the species set; only those are required with such a species present (both include_isolated_species settings)",
     "species-graph round trip is only required for networks whose reactions all have both sides, and only for ids and stoichiometry",
@@ -88,15 +88,15 @@ def check(case):
     # ---- bipartite
     for integer_ids in (False, True):
         for prefixes in ("default", None):
-            for role in (True, False):
-                kw = dict(integer_ids=integer_ids, include_role=role, include_stoich=True, include_edge_id_attr=True, include_mol=True)
+            for role, markers in ((True, (0, 1)), (False, (0, 1)), (True, (1, 0)), (False, (True, False)), (True, ("sp", "rx")), (False, (2, 3))):
+                kw = dict(integer_ids=integer_ids, include_role=role, include_stoich=True, include_edge_id_attr=True, include_mol=True, bipartite_values=markers)
                 bkw = {}
                 if prefixes is None:
                     kw.update(species_prefix=None, reaction_prefix=None)
                 G = cv.hypergraph_to_bipartite(H, **kw)
                 H2 = cv.bipartite_to_hypergraph(G, **bkw)
                 n += 1
-                cfg = f"int={integer_ids},prefix={prefixes},role={role}"
+                cfg = f"int={integer_ids},prefix={prefixes},role={role},markers={markers}"
                 if canon_rx(H2) != want:
                     fails.append(Fail("bipartite_reactions", f"{cfg}: {canon_rx(H2)}", str(want), key_extra=cfg))
                 elif dict(H2.species_to_mol) != want_mol or any(type(H2.species_to_mol[k]) is not type(want_mol[k]) for k in want_mol):
